@@ -15,6 +15,12 @@
 (* begin (API precondition: "must be paired"), so every rec[t] is a prefix of a *)
 (* properly nested sequence.  SaveLog(pname) does not change rec.               *)
 (*                                                                              *)
+(* Thread lifetimes: phase[t] is "new" (not created yet), "live" (created; only *)
+(* a live thread records) or "done" (it has ended and was joined).  prec is the *)
+(* relation "t had ended before u was created", extended when a thread is       *)
+(* created.  Threads related by prec never coexisted and may share a tid in the *)
+(* log (std::thread::id values are recycled); see TraceLogContract.             *)
+(*                                                                              *)
 (* A written log is, once parsed, a sequence of entries [tid, ph, name, cat,    *)
 (* val].  The log renumbers threads, so WHICH tid a thread gets is not          *)
 (* constrained; time stamps, pid, cpu statistics are not constrained; metadata  *)
@@ -25,18 +31,22 @@
 (*                                                                              *)
 (* The ghost variable `last` = [a, arg, exp, cls] is what the conformance       *)
 (* driver is compared with: for SaveLog, exp.json = "wellformed" and            *)
-(* exp.threads = the recorded sequences of the threads that recorded anything   *)
-(* (the driver reports the relevant entries grouped by tid; both lists are      *)
-(* brought into one canonical order before they are compared, which decides     *)
-(* exactly "there is a one-to-one assignment of tids to threads").              *)
-EXTENDS TraceLogContract
+(* exp.threads = the recorded sequences of the threads that recorded anything;  *)
+(* exp.alt lists EVERY admissible content of the log (one list of per-tid       *)
+(* sequences per partition of the recording threads into prec-chains; just      *)
+(* exp.threads when no two recording threads are prec-related).  The driver     *)
+(* reports the relevant entries grouped by tid; all lists are brought into one  *)
+(* canonical order and the observation must equal one of the alternatives,      *)
+(* which decides exactly Accepts.                                               *)
+EXTENDS TraceLogContract, SequencesExt
 
 CONSTANTS MaxEvents,    \* bound on the total number of recorded events (bounded instances)
           MaxDepth,     \* bound on the nesting depth of open begin events
-          Ordered       \* BOOLEAN: symmetry reduction - thread t+1 records only after thread t did
+          Ordered,      \* BOOLEAN: symmetry reduction - thread t+1 is created only after thread t was
+          Exits         \* BOOLEAN: threads may end before saveLog (FALSE: every thread lives until the end)
 
-VARIABLES rec, last
-vars == <<rec, last>>
+VARIABLES rec, phase, prec, last
+vars == <<rec, phase, prec, last>>
 
 NoArg == <<>>
 Depth(t)   == DepthOf(KindsOf(rec[t]))
@@ -46,40 +56,62 @@ Total == LET RECURSIVE Sum(_)
 
 -------------------------------------------------------------------------------
 \* Attributes of the next event of thread t in the bounded instances: a function of the thread and of the position,
-\* with repeated and fresh names, events with and without category, small and 31-bit counter values.
+\* with names repeated inside a thread and different between threads (every begin, marker and counter event of a
+\* history is distinguishable from the events of the other threads), events with and without category, small and
+\* 31-bit counter values.
 Pos(t)     == Len(rec[t])
+Of(base, t) == base \o ToString(t)
 BNames     == <<"frame", "render", "frame">>
 INames     == <<"mark", "tick">>
 CNamesPool == <<"count", "bytes">>
-BName(t)   == BNames[(Pos(t) % 3) + 1]
-IName(t)   == INames[((Pos(t) + t) % 2) + 1]
-CName(t)   == CNamesPool[(Pos(t) % 2) + 1]
+BName(t)   == Of(BNames[(Pos(t) % 3) + 1], t)
+IName(t)   == Of(INames[((Pos(t) + t) % 2) + 1], t)
+CName(t)   == Of(CNamesPool[(Pos(t) % 2) + 1], t)
 CatOf(t)   == IF (Pos(t) + t) % 2 = 0 THEN "cat" ELSE ""
 ValOf(t)   == IF Pos(t) = 2 THEN 2147483647 ELSE 1000 * t + Pos(t)
 
-MayRecord(t) == /\ Total < MaxEvents
-                /\ IF Ordered /\ t > 1 THEN rec[t - 1] # <<>> ELSE TRUE
+MayRecord(t) == phase[t] = "live" /\ Total < MaxEvents
 
 Void == [ret |-> "void"]
+
+\* a std::thread is created: everything that has ended by now precedes it
+ThreadStart(t) ==
+  /\ phase[t] = "new" /\ Total < MaxEvents
+  /\ IF Ordered /\ t > 1 THEN phase[t - 1] # "new" ELSE TRUE
+  /\ phase' = [phase EXCEPT ![t] = "live"]
+  /\ prec' = prec \cup {<<u, t>> : u \in {v \in Threads : phase[v] = "done"}}
+  /\ rec' = rec
+  /\ last' = [a |-> "ThreadStart", arg |-> [t |-> t], exp |-> Void, cls |-> ""]
+
+\* the thread ends and is joined (bounded instances: only threads that recorded something)
+ThreadExit(t) ==
+  /\ Exits /\ phase[t] = "live" /\ rec[t] # <<>>
+  /\ phase' = [phase EXCEPT ![t] = "done"]
+  /\ UNCHANGED <<rec, prec>>
+  /\ last' = [a |-> "ThreadExit", arg |-> [t |-> t], exp |-> Void, cls |-> ""]
 
 Begin(t, name, cat) ==
   /\ MayRecord(t) /\ Depth(t) < MaxDepth
   /\ rec' = [rec EXCEPT ![t] = Append(@, Ev("B", name, cat, 0))]
+  /\ UNCHANGED <<phase, prec>>
   /\ last' = [a |-> "Begin", arg |-> [t |-> t, name |-> name, cat |-> cat], exp |-> Void, cls |-> ""]
 
 End(t) ==
   /\ MayRecord(t) /\ Depth(t) > 0
   /\ rec' = [rec EXCEPT ![t] = Append(@, Ev("E", "", "", 0))]
+  /\ UNCHANGED <<phase, prec>>
   /\ last' = [a |-> "End", arg |-> [t |-> t], exp |-> Void, cls |-> ""]
 
 Marker(t, name, cat) ==
   /\ MayRecord(t)
   /\ rec' = [rec EXCEPT ![t] = Append(@, Ev("i", name, cat, 0))]
+  /\ UNCHANGED <<phase, prec>>
   /\ last' = [a |-> "Marker", arg |-> [t |-> t, name |-> name, cat |-> cat], exp |-> Void, cls |-> ""]
 
 Counter(t, name, val) ==
   /\ MayRecord(t)
   /\ rec' = [rec EXCEPT ![t] = Append(@, Ev("C", name, "", val))]
+  /\ UNCHANGED <<phase, prec>>
   /\ last' = [a |-> "Counter", arg |-> [t |-> t, name |-> name, val |-> val], exp |-> Void, cls |-> ""]
 
 \* the recorded sequences of the threads that recorded anything, in thread order
@@ -88,27 +120,39 @@ Visible(r) == LET act == SelectSeq([t \in 1..Cardinality(Threads) |-> t], LAMBDA
 
 \* pname = "" stands for the null pointer (no process name)
 SaveLog(pname) ==
-  /\ rec' = rec
+  /\ UNCHANGED <<rec, phase, prec>>
   /\ last' = [a |-> "SaveLog", arg |-> [pname |-> pname],
-              exp |-> [json |-> "wellformed", threads |-> Visible(rec)],
-              cls |-> (IF Active(rec) = {} THEN "log=empty" ELSE "log=nonempty") \o (IF pname = "" THEN ",pname=none" ELSE ",pname=given")]
+              exp |-> [json |-> "wellformed", threads |-> Visible(rec), alt |-> SetToSeq(Groupings(rec, prec))],
+              cls |-> (IF Active(rec) = {} THEN "log=empty" ELSE "log=nonempty") \o (IF pname = "" THEN ",pname=none" ELSE ",pname=given")
+                      \o (IF Sequential(rec, prec) THEN ",threads=sequential" ELSE "")]
 
-Init == rec = [t \in Threads |-> <<>>] /\ last = [a |-> "Init", arg |-> NoArg, exp |-> Void, cls |-> ""]
+Init == /\ rec = [t \in Threads |-> <<>>] /\ phase = [t \in Threads |-> "new"] /\ prec = {}
+        /\ last = [a |-> "Init", arg |-> NoArg, exp |-> Void, cls |-> ""]
 
 Next ==
+  \/ \E t \in Threads : ThreadStart(t) \/ ThreadExit(t)
   \/ \E t \in Threads : Begin(t, BName(t), CatOf(t)) \/ End(t) \/ Marker(t, IName(t), CatOf(t)) \/ Counter(t, CName(t), ValOf(t))
   \/ \E pn \in {"", "proc"} : SaveLog(pn)
 
 Spec == Init /\ [][Next]_vars
 
 -------------------------------------------------------------------------------
-TypeOK == \A t \in Threads : \A i \in DOMAIN rec[t] :
-            /\ rec[t][i].k \in Kinds
-            /\ rec[t][i].k = "E" => rec[t][i].name = ""
-            /\ rec[t][i].k # "E" => rec[t][i].name # ""
+TypeOK == /\ \A t \in Threads : \A i \in DOMAIN rec[t] :
+               /\ rec[t][i].k \in Kinds
+               /\ rec[t][i].k = "E" => rec[t][i].name = ""
+               /\ rec[t][i].k # "E" => rec[t][i].name # ""
+          /\ \A t \in Threads : phase[t] \in {"new", "live", "done"} /\ (phase[t] = "new" => rec[t] = <<>>)
 RecNested == \A t \in Threads : Nested(KindsOf(rec[t])) /\ Depth(t) \in 0..MaxDepth
 Bounded   == Total <= MaxEvents
+\* prec is a strict partial order in which incomparability is "coexisted": an interval order (no 2+2), so every set of
+\* pairwise comparable threads is a chain with a unique order - what ChainSeq relies on
+PrecOK == /\ \A p \in prec : p[1] # p[2] /\ <<p[2], p[1]>> \notin prec /\ phase[p[1]] = "done" /\ phase[p[2]] # "new"
+          /\ \A p, q \in prec : p[2] = q[1] => <<p[1], q[2]>> \in prec
+          /\ \A p, q \in prec : <<p[1], q[2]>> \in prec \/ <<q[1], p[2]>> \in prec
+          /\ ~Exits => prec = {}
 SaveExpAgrees == last.a = "SaveLog" =>
                    /\ Len(last.exp.threads) = Cardinality(Active(rec))
                    /\ \A i \in DOMAIN last.exp.threads : \E t \in Active(rec) : last.exp.threads[i] = RenderSeq(rec[t])
+                   /\ \E i \in DOMAIN last.exp.alt : last.exp.alt[i] = last.exp.threads       \* a tid per thread is always admissible
+                   /\ (~Sequential(rec, prec)) => Len(last.exp.alt) = 1
 ===============================================================================
